@@ -601,28 +601,67 @@ def sp_metamorphic(h, mod, snap):
 def ct_valid(c, acc=None):
     """physically meaningful parameters: positive, decreasing-free resolution over the accommodated range"""
     acc = acc if acc is not None else c["acc"]
-    lam = max(w for w, _ in acc) * 1.02 + 5.0
-    p = 0.5 * c["order"] * c["grating"] * lam
-    a = math.radians(c["angle"])
+    lam = max(float(w) for w, _ in acc) * 1.02 + 5.0
+    p = 0.5 * int(c["order"]) * float(c["grating"]) * lam
+    a = math.radians(float(c["angle"]))
     disc = math.cos(a) ** 2 - p * p
     return disc > 0.05 and math.sqrt(disc) - p * math.tan(a) > 0.05
 
 
 def ct_gen_param(rng, which):
     if which == "order":
-        return rng.choice([1, 1, 2, 3, 1.0, 2.9])
+        return rng.choice([1, 1, 2, 3, 1.0, 2.9, np.int64(2), np.float64(1.5), True, "2"])
     if which == "grating":
-        return rng.choice([dyadic(rng, 2 ** -11, 2 ** -8, 16), rng.uniform(3e-4, 2.5e-3)])
+        return form_real(rng, rng.choice([dyadic(rng, 2 ** -11, 2 ** -8, 16), rng.uniform(3e-4, 2.5e-3)]))
     if which == "focal":
-        return rng.choice([float(2 ** rng.randint(27, 31)), rng.uniform(2e8, 2e9)])
+        return form_real(rng, rng.choice([float(2 ** rng.randint(27, 31)), rng.uniform(2e8, 2e9)]))
     if which == "spacing":
-        return rng.choice([float(2 ** rng.randint(13, 16)), rng.uniform(8e3, 5e4)])
+        return form_real(rng, rng.choice([float(2 ** rng.randint(13, 16)), rng.uniform(8e3, 5e4)]))
     if which == "angle":
-        return rng.choice([dyadic(rng, 2, 30, 3), rng.uniform(2, 30)])
+        # not as float32: np.deg2rad of a float32 scalar is evaluated in single precision, which the model's
+        # deg2rad (one double multiplication) does not describe; mutated and fresh instruments agree there as well
+        v = form_real(rng, rng.choice([dyadic(rng, 2, 30, 3), rng.uniform(2, 30)]))
+        return float(v) if isinstance(v, np.float32) else v
     if which == "acc":
-        return tuple((rng.choice([dyadic(rng, 300, 800, 3), rng.uniform(300, 800)]), rng.randint(1, 6))
-                     for _ in range(rng.choice([1, 1, 2, 3])))
+        r = rng.random()
+        if r < 0.04:
+            STATS["acc:no spectra at all"] += 1
+            return ()
+        nmax = 6
+        if r < 0.2:
+            nmax = -1                                            # loop-count classes 9/10/11 (99/100/101 in thorough)
+        base = [(rng.choice([dyadic(rng, 300, 800, 3), rng.uniform(300, 800), float(rng.randint(300, 800))]),
+                 rng.randint(1, nmax) if nmax > 0 else rng.choice([9, 10, 11] if QUICK[0] or rng.random() < 0.8 else [99, 100, 101]))
+                for _ in range(rng.choice([1, 1, 2, 3]))]
+        if len(base) >= 2 and rng.random() < 0.3:
+            base[rng.randrange(len(base))] = base[0]             # the same spectrum twice
+            STATS["acc:repeated entry"] += 1
+        if len(base) >= 2 and rng.random() < 0.3:
+            # nested: a later (or earlier) spectrum starts below and, having more pixels, ends above another one
+            i, j = rng.sample(range(len(base)), 2)
+            base[j] = (base[i][0] - dyadic(rng, 0.01, 0.05, 8), base[i][1] + rng.randint(6, 12))
+            STATS["acc:nested"] += 1
+        return form_acc(rng, base)
     raise KeyError(which)
+
+
+def form_acc(rng, base):
+    """accommodated_spectra in one of the forms 'for min_wavelength, pixels in value' accepts"""
+    k = rng.randrange(6)
+    label = "tuple of tuples"
+    val = tuple((w, n) for w, n in base)
+    if k == 1:
+        val, label = [[w, n] for w, n in base], "list of lists"
+    elif k == 2:
+        val, label = [(np.float64(w), np.int64(n)) for w, n in base], "numpy scalars"
+    elif k == 3:
+        val, label = np.array([[w, float(n)] for w, n in base]), "2-D float ndarray (pixel counts as floats)"
+    elif k == 4:
+        val, label = tuple((w, float(n)) for w, n in base), "float pixel counts"
+    elif k == 5 and all(float(w).is_integer() for w, _ in base):
+        val, label = [(int(w), n) for w, n in base], "int wavelengths"
+    STATS["acc form:" + label] += 1
+    return val
 
 
 CT_SET = {"order": ("CtSetOrder", "diffraction_order"), "grating": ("CtSetGrating", "grating"),
@@ -631,7 +670,7 @@ CT_SET = {"order": ("CtSetOrder", "diffraction_order"), "grating": ("CtSetGratin
 
 
 def acc_txt(acc):
-    return "[" + "; ".join("(%s, %s)" % (qlit(w), zl(n)) for w, n in acc) + "]"
+    return "[" + "; ".join("(%s, %s)" % (qlit(float(w)), zl(int(n))) for w, n in acc) + "]"
 
 
 def ct_table_add(table, mod, c, acc):
@@ -642,93 +681,128 @@ def ct_table_add(table, mod, c, acc):
     key = (int(c["order"]), float(c["grating"]), float(c["focal"]), float(c["spacing"]), float(aux._diffraction_angle))
     ent = table.setdefault(key, {})
     for w0, n in acc:
-        w = float(w0)
+        w = np.float64(w0)
         for _ in range(int(n)):
-            r = float(aux.resolution(w))
+            r = aux.resolution(w)
             if math.isnan(r):
                 raise ValueError("resolution is NaN for generated parameters")
-            ent[w] = r
+            ent[float(w)] = float(r)
             w = w + r
 
 
 def ct_history(rng, mod, enc, quick):
     while True:
         c = {k: ct_gen_param(rng, k) for k in ("order", "grating", "focal", "spacing", "angle", "acc")}
-        if ct_valid(c):
+        if len(c["acc"]) and ct_valid(c):
             break
     c["mbpp"] = rng.randint(1, 8)
     c["name"] = rng.choice(NAMES)
+    r = rng.random()
+    if r < 0.15:
+        c["mbpp"], c["name"] = 1, ""
+        inst = mod.CzernyTurnerSpectrometer(c["order"], c["grating"], c["focal"], c["spacing"], c["angle"], c["acc"])
+        STATS["ctor:defaults"] += 1
+    elif r < 0.3:
+        inst = mod.CzernyTurnerSpectrometer(name=c["name"], min_bins_per_pixel=c["mbpp"], accommodated_spectra=c["acc"],
+                                            diffraction_angle=c["angle"], pixel_spacing=c["spacing"], focal_length=c["focal"],
+                                            grating=c["grating"], diffraction_order=c["order"])
+        STATS["ctor:keywords"] += 1
+    else:
+        inst = mod.CzernyTurnerSpectrometer(c["order"], c["grating"], c["focal"], c["spacing"], c["angle"], c["acc"],
+                                            c["mbpp"], c["name"])
     p_txt = ("{| ctp_order := %s; ctp_grating := %s; ctp_focal := %s; ctp_spacing := %s; ctp_angle := %s; "
              "ctp_acc := %s; ctp_mbpp := %s; ctp_name := %s |}" % (
-                 qlit(c["order"]), qlit(c["grating"]), qlit(c["focal"]), qlit(c["spacing"]), qlit(c["angle"]),
-                 acc_txt(c["acc"]), qlit(c["mbpp"]), cstr(c["name"])))
-    inst = mod.CzernyTurnerSpectrometer(c["order"], c["grating"], c["focal"], c["spacing"], c["angle"], c["acc"],
-                                        c["mbpp"], c["name"])
+                 qlit(model_num(c["order"])), qlit(float(c["grating"])), qlit(float(c["focal"])), qlit(float(c["spacing"])),
+                 qlit(float(c["angle"])), acc_txt(c["acc"]), qlit(c["mbpp"]), cstr(c["name"])))
     cur = dict(c)
     cur["order"] = int(cur["order"])
+    past = {k: [c[k]] for k in ("order", "grating", "focal", "spacing", "angle", "acc", "mbpp")}
+    past["name"] = [(c["name"], c["name"])]
     table = {}
     ct_table_add(table, mod, cur, cur["acc"])
-    ops, outs, log = [], ["OUnit"], []
+    ops, outs, log, side = [], ["OUnit"], [], []
     stale_window = read_seen = False
     for _ in range(rng.randint(2, 9 if quick else 14)):
         r = rng.random()
-        if r < 0.35:
+        if r < 0.32:
             gi = rng.randrange(5)
             ops.append("CtGet %s" % GETTERS[gi][0])
             outs.append(do_get(inst, enc, gi))
             log.append(GETTERS[gi][1])
             read_seen = True
+        elif r < 0.36:
+            do_create_pipelines(inst, enc, "CtGet", ops, outs, log)
+        elif r < 0.39:
+            # wavelength_to_pixel is read-only here (the subclass re-declares the property without a setter)
+            st, v = call(lambda: setattr(inst, "wavelength_to_pixel", ([400., 401., 402.],)))
+            STATS["op:assignment to a read-only attribute"] += 1
+            log.append("wavelength_to_pixel=... (%s)" % (v if st == "err" else "ACCEPTED"))
+            if (st, v) != ("err", "ErrAttribute"):
+                side.append("assignment to CzernyTurnerSpectrometer.wavelength_to_pixel gave %r instead of AttributeError" % ((st, v),))
         elif r < 0.7:
             which = rng.choice(list(CT_SET))
-            if rng.random() < 0.15:
-                v = rng.choice([0, -1, -2.5]) if which != "order" else rng.choice([0, -1, 0.5])
-                ok_expected = False
+            q = rng.random()
+            if q < 0.18:
+                v = rng.choice([0, -1, -2.5, -0.0, 0.0, -5e-324, np.float64(0.0)]) if which != "order" else \
+                    rng.choice([0, -1, 0.5, 0.999999, -0.0, False, "0", -0.5])
+                STATS["guard value for a positive attribute"] += 1
+            elif q < 0.36:
+                v = pick_past(rng, past[which])
             else:
                 v = ct_gen_param(rng, which)
+            if q >= 0.18:
                 trial = dict(cur)
                 trial[which] = int(v) if which == "order" else v
-                if not ct_valid(trial):
+                if len(cur["acc"]) and not ct_valid(trial):
                     continue
-                ok_expected = True
             o, ok = do_set(inst, CT_SET[which][1], v)
-            ops.append("%s %s" % (CT_SET[which][0], qlit(v)))
+            ops.append("%s %s" % (CT_SET[which][0], qlit(model_num(v) if which == "order" else float(v))))
             outs.append(o)
             log.append("%s=%r%s" % (CT_SET[which][1], v, "" if ok else " (rejected)"))
             if ok:
                 cur[which] = int(v) if which == "order" else v
+                past[which].append(v)
                 ct_table_add(table, mod, cur, cur["acc"])
                 stale_window |= read_seen
         elif r < 0.8:
-            if rng.random() < 0.2:
-                v = ((rng.choice([0.0, -400.0]), 3),) if rng.random() < 0.5 else ((500.0, rng.choice([0, -2])),)
+            q = rng.random()
+            if q < 0.2:
+                v = rng.choice([((0.0, 3),), ((-400.0, 3),), ((-0.0, 2),), ((500.0, 0),), ((500.0, -2),), ((500.0, 3), (600.0, 0)),
+                                [(500.0, 2), (-5e-324, 2)], ((500.0, -0.0),)])
+                STATS["guard value in accommodated_spectra"] += 1
+            elif q < 0.4:
+                v = pick_past(rng, past["acc"])
             else:
                 v = ct_gen_param(rng, "acc")
-                if not ct_valid(cur, v):
-                    continue
+            if q >= 0.2 and len(v) and not ct_valid(cur, v):
+                continue
             o, ok = do_set(inst, "accommodated_spectra", v)
             ops.append("CtSetAcc %s" % acc_txt(v))
             outs.append(o)
             log.append("accommodated_spectra=%r%s" % (v, "" if ok else " (rejected)"))
             if ok:
                 cur["acc"] = v
+                past["acc"].append(v)
                 ct_table_add(table, mod, cur, v)
                 stale_window |= read_seen
         elif r < 0.88:
-            v = gen_mbpp(rng)
+            v = pick_past(rng, past["mbpp"]) if rng.random() < 0.25 else gen_mbpp(rng)
             o, ok = do_set(inst, "min_bins_per_pixel", v)
-            ops.append("CtSetMbpp %s" % qlit(v))
+            ops.append("CtSetMbpp %s" % qlit(model_num(v)))
             outs.append(o)
             log.append("min_bins_per_pixel=%r%s" % (v, "" if ok else " (rejected)"))
             if ok:
                 cur["mbpp"] = int(v)
+                past["mbpp"].append(v)
                 stale_window |= read_seen
         elif r < 0.94:
-            v = rng.choice(NAMES)
+            v, vs = pick_past(rng, past["name"]) if rng.random() < 0.25 else gen_name(rng)
             o, ok = do_set(inst, "name", v)
-            ops.append("CtSetName %s" % cstr(v))
+            ops.append("CtSetName %s" % cstr(vs))
             outs.append(o)
-            log.append("name=%r" % v)
-            cur["name"] = v
+            log.append("name=%r" % (v,))
+            cur["name"] = vs
+            past["name"].append((v, vs))
         else:
             which = rng.choice(["CtGetW2p", "CtGetWl"])
             ops.append(which)
@@ -745,77 +819,115 @@ def ct_history(rng, mod, enc, quick):
             "; ".join("(%s, %s)" % (qlit(w), qlit(r)) for w, r in ent.items()))
         for k, ent in table.items()) + "]"
     case = "check_ct %s %s %s [%s] [%s]" % (qlit(D2R), tab_txt, p_txt, "; ".join(ops), "; ".join(outs))
-    return {"case": case, "cur": cur, "inst": inst, "kind": "czerny-turner", "log": log,
+    return {"case": case, "cur": cur, "inst": inst, "kind": "czerny-turner", "log": log, "side": side,
             "init": {k: c[k] for k in c}, "stale_window": stale_window}
 
 
 # ---------------------------------------------------------------------------------------------
 # Polychromator histories and filters
 # ---------------------------------------------------------------------------------------------
-def gen_filter_spec(rng):
-    """('trap', c, w, ft) or ('gen', wavelengths, samples); mostly valid"""
-    if rng.random() < 0.7:
-        c = rng.choice([dyadic(rng, 300, 900, 3), rng.uniform(300, 900), 656.1, 464.8])
-        w = rng.choice([3.0, dyadic(rng, 0.5, 12, 4), rng.uniform(0.5, 12)])
+def gen_filter_spec(rng, around=None):
+    """('trap', c, w, ft) or ('gen', wavelengths, samples); mostly valid.  around = (lo, hi): a filter that encloses
+    that interval on both sides, or shares one of its ends (nesting / order classes)"""
+    s = gen_scale(rng)
+    if rng.random() < 0.7 or around:
+        c = rng.choice([dyadic(rng, 300, 900, 3), rng.uniform(300, 900), 656.1, 464.8, float(rng.randint(300, 900))])
+        w = rng.choice([3.0, dyadic(rng, 0.5, 12, 4), rng.uniform(0.5, 12), float(rng.randint(1, 12))])
+        if around:
+            lo, hi = around
+            c, w, s = 0.5 * (lo + hi), (hi - lo) * (1 + rng.choice([0.25, 1.0, 4.0])), 1.0
+            if rng.random() < 0.3:
+                c = lo + 0.5 * w                       # same lower end as the enclosed filter (up to rounding)
         r = rng.random()
         if r < 0.3:
             ft = None
         elif r < 0.4:
-            ft = w
+            ft = w * s
         elif r < 0.45:
-            ft = 0.0                                   # 'flat_top or window' -> window
+            ft = rng.choice([0.0, -0.0, False])        # 'flat_top or window' -> window
+        elif r < 0.5:
+            ft = ulp_dn(w * s)                         # one ulp below the window: not the 'flat_top == window' shortcut
+            STATS["filter:flat_top one ulp below window"] += 1
+        elif r < 0.53:
+            ft = 5e-324
+        elif r < 0.56 and w * s > 1:
+            ft = True                                  # a bool is a number: flat_top = 1
         else:
-            ft = w * rng.choice([0.25, 0.5, 0.75, rng.uniform(0.05, 0.99)])
-        return ("trap", c, w, ft)
+            ft = w * s * rng.choice([0.25, 0.5, 0.75, rng.uniform(0.05, 0.99)])
+        c, w = c * s, w * s
+        return ("trap", form_real(rng, c), form_real(rng, w), ft)
     n = rng.randint(2, 6)
-    a = rng.choice([dyadic(rng, 300, 900, 3), rng.uniform(300, 900)])
+    a = rng.choice([dyadic(rng, 300, 900, 3), rng.uniform(300, 900), float(rng.randint(300, 900))])
     ws = [a]
     for _ in range(n - 1):
-        ws.append(ws[-1] + rng.choice([dyadic(rng, 0.25, 5, 4), rng.uniform(0.2, 5)]))
+        ws.append(ws[-1] + rng.choice([dyadic(rng, 0.25, 5, 4), rng.uniform(0.2, 5), float(rng.randint(1, 4))]))
+    ws = [x * s for x in ws]
     rng.shuffle(ws)
     samples = [rng.choice([0.0, 0.5, 1.0, rng.uniform(0, 1)]) for _ in ws]
+    k = rng.randrange(4)
+    if k == 1:
+        ws, samples = tuple(ws), tuple(samples)
+    elif k == 2:
+        ws, samples = np.array(ws), np.array(samples, dtype=np.float32)
+    elif k == 3 and all(float(x).is_integer() for x in ws):
+        ws = [int(x) for x in ws]
+        STATS["filter:int wavelengths"] += 1
     return ("gen", ws, samples)
 
 
 def gen_bad_trap(rng):
     return rng.choice([("trap", 0.0, 3.0, None), ("trap", -500.0, 3.0, 1.0), ("trap", 500.0, 0.0, None),
                        ("trap", 500.0, -2.0, 1.0), ("trap", 500.0, 3.0, -1.0), ("trap", 500.0, 3.0, 3.5),
-                       ("trap", 500.0, 3.0, 3.0000000000000004)])
+                       ("trap", 500.0, 3.0, 3.0000000000000004), ("trap", -0.0, 3.0, None), ("trap", 500.0, -0.0, None),
+                       ("trap", 500, 3, -5e-324), ("trap", -5e-324, 3.0, 1.0), ("trap", 500.0, 5e-324, 1.0),
+                       ("gen", [], []), ("gen", [500.0], [1.0]), ("gen", [500.0, 500.0], [1.0, 0.5]), ("gen", [500], [0])])
 
 
 def build_filter(mod, spec, name):
     if spec[0] == "trap":
+        if float(spec[2]) == 3.0 and spec[3] is None and type(spec[2]) is float:
+            STATS["ctor:defaults"] += 1
+            return mod.TrapezoidalFilter(spec[1], name=name)          # default window and flat_top
         return mod.TrapezoidalFilter(spec[1], spec[2], spec[3], name)
     return mod.PolychromatorFilter(spec[1], spec[2], name=name)
 
 
 def filter_model_txt(spec, fid, name):
     if spec[0] == "trap":
-        ft = "None" if spec[3] is None else "(Some %s)" % qlit(spec[3])
-        return "mk_trapezoid round53 %s %s %s %s %s %s" % (qlit(EPS15), zl(fid), cstr(name), qlit(spec[1]), qlit(spec[2]), ft)
-    return "mk_filter round53 %s %s %s" % (zl(fid), cstr(name), qlist(spec[1]))
+        ft = "None" if spec[3] is None else "(Some %s)" % qlit(float(spec[3]))
+        return "mk_trapezoid round53 %s %s %s %s %s %s" % (qlit(EPS15), zl(fid), cstr(name), qlit(float(spec[1])), qlit(float(spec[2])), ft)
+    return "mk_filter round53 %s %s %s" % (zl(fid), cstr(name), qlist([float(x) for x in spec[1]]))
 
 
 def filter_case(rng, mod):
-    spec = gen_bad_trap(rng) if rng.random() < 0.25 else gen_filter_spec(rng)
+    spec = gen_bad_trap(rng) if rng.random() < 0.3 else gen_filter_spec(rng)
     st, f = call(lambda: build_filter(mod, spec, "f"))
     if st == "err":
         impl = "(Err %s)" % f
     else:
         impl = "(Ok (%s, %s, %s))" % (qlit(float(f.min_wavelength)), qlit(float(f.max_wavelength)), qlit(float(f.window)))
+        if float(f.central_wavelength) != 0.5 * (float(f.max_wavelength) + float(f.min_wavelength)) or f.name != "f":
+            impl = "(Err ErrOther)"
     return {"case": "filter_eqb (%s) %s" % (filter_model_txt(spec, 0, "f"), impl), "spec": spec,
             "ok": st == "ok", "kind": "filter"}
 
 
 def pc_history(rng, mod, quick):
     # a pool of filter objects; the model gets the same filters through mk_trapezoid / mk_filter
-    pool, fid, defs = [], {}, []
+    pool, fid = [], {}
     for i in range(rng.randint(2, 5)):
-        spec = gen_filter_spec(rng)
+        around = None
+        if pool and rng.random() < 0.35:
+            g = pool[rng.randrange(len(pool))][0]
+            around = (float(g.min_wavelength), float(g.max_wavelength))
+            STATS["filters:one encloses / shares an end with another"] += 1
+        spec = gen_filter_spec(rng, around)
         name = rng.choice(["f%d" % i, "H-alpha filter", "CIII 465 nm", ""])
         f = build_filter(mod, spec, name)
         pool.append((f, spec, name))
         fid[id(f)] = i
+    rng.shuffle(pool)
+    fid = {id(f): i for i, (f, _, _) in enumerate(pool)}
     enc = Enc(fid)
 
     def ftxt(i):
@@ -828,13 +940,15 @@ def pc_history(rng, mod, quick):
             idx = [rng.randrange(len(pool)) for _ in range(rng.randint(1, 3))]
             pos = rng.randrange(len(idx) + 1)
             val = [pool[i][0] for i in idx]
-            val.insert(pos, rng.choice([None, 3.0, "filter"]))
+            val.insert(pos, rng.choice([None, 3.0, "filter", mod.TrapezoidalFilter]))
             txt = [ftxt(i) for i in idx]
             txt.insert(pos, "None")
             return val, "[" + "; ".join(txt) + "]", idx, False
         if allow_bad and r < 0.17:
-            return [], "[]", [], True
+            return rng.choice([[], ()]), "[]", [], True
         idx = [rng.randrange(len(pool)) for _ in range(rng.randint(1, 4))]
+        if rng.random() < 0.15:
+            idx = list(range(len(pool))) * rng.choice([1, 2])      # every filter, possibly each twice
         val = [pool[i][0] for i in idx]
         if rng.random() < 0.5:
             val = tuple(val)
@@ -843,44 +957,63 @@ def pc_history(rng, mod, quick):
     fv, ftx, fidx, _ = gen_filters(allow_bad=False)
     mbpw = rng.randint(1, 20)
     name = rng.choice(NAMES)
+    r = rng.random()
+    if r < 0.15:
+        mbpw, name = 10, ""
+        inst = mod.Polychromator(fv)
+        STATS["ctor:defaults"] += 1
+    elif r < 0.3:
+        inst = mod.Polychromator(name=name, filters=fv, min_bins_per_window=mbpw)
+        STATS["ctor:keywords"] += 1
+    else:
+        inst = mod.Polychromator(fv, mbpw, name)
     p_txt = "{| pcp_filters := %s; pcp_mbpw := %s; pcp_name := %s |}" % (ftx, qlit(mbpw), cstr(name))
-    inst = mod.Polychromator(fv, mbpw, name)
     cur = {"filters": fv, "fidx": fidx, "mbpw": mbpw, "name": name}
+    past = {"filters": [(fv, ftx, fidx)], "mbpw": [mbpw], "name": [(name, name)]}
     ops, outs, log = [], ["OUnit"], []
     stale_window = read_seen = False
     for _ in range(rng.randint(2, 10 if quick else 16)):
         r = rng.random()
-        if r < 0.45:
+        if r < 0.4:
             gi = rng.randrange(5)
             ops.append("PcGet %s" % GETTERS[gi][0])
             outs.append(do_get(inst, enc, gi))
             log.append(GETTERS[gi][1])
             read_seen = True
+        elif r < 0.45:
+            do_create_pipelines(inst, enc, "PcGet", ops, outs, log)
+            read_seen = True
         elif r < 0.65:
-            v, vt, idx, _ = gen_filters()
+            if rng.random() < 0.25:
+                v, vt, idx = pick_past(rng, past["filters"])
+            else:
+                v, vt, idx, _ = gen_filters()
             o, ok = do_set(inst, "filters", v)
             ops.append("PcSetFilters %s" % vt)
             outs.append(o)
             log.append("filters=%s%s" % (idx, "" if ok else " (rejected)"))
             if ok:
                 cur["filters"], cur["fidx"] = v, idx
+                past["filters"].append((v, vt, idx))
                 stale_window |= read_seen
         elif r < 0.85:
-            v = gen_mbpp(rng)
+            v = pick_past(rng, past["mbpw"]) if rng.random() < 0.25 else gen_mbpp(rng)
             o, ok = do_set(inst, "min_bins_per_window", v)
-            ops.append("PcSetMbpw %s" % qlit(v))
+            ops.append("PcSetMbpw %s" % qlit(model_num(v)))
             outs.append(o)
             log.append("min_bins_per_window=%r%s" % (v, "" if ok else " (rejected)"))
             if ok:
                 cur["mbpw"] = int(v)
+                past["mbpw"].append(v)
                 stale_window |= read_seen
         else:
-            v = rng.choice(NAMES)
+            v, vs = pick_past(rng, past["name"]) if rng.random() < 0.25 else gen_name(rng)
             o, ok = do_set(inst, "name", v)
-            ops.append("PcSetName %s" % cstr(v))
+            ops.append("PcSetName %s" % cstr(vs))
             outs.append(o)
-            log.append("name=%r" % v)
-            cur["name"] = v
+            log.append("name=%r" % (v,))
+            cur["name"] = vs
+            past["name"].append((v, vs))
             stale_window |= read_seen
     for gi in rng.sample(range(5), 5):
         ops.append("PcGet %s" % GETTERS[gi][0])
@@ -912,6 +1045,15 @@ def pc_search(h, mod):
         intervals = [(float(f.min_wavelength), float(f.max_wavelength)) for f in inst.filters]
         narrowest = min(Fraction(float(f.window)) for f in inst.filters)
         fails += range_and_width_claims(mn, mx, bins, intervals, narrowest, cur["mbpw"])
+        if len(cur["filters"]) >= 2:
+            want = (a["min_wavelength"], a["max_wavelength"], a["spectral_bins"])
+            fl = list(cur["filters"])
+            for perm, label in ((fl[::-1], "reversed"), (fl[1:] + fl[:1], "rotated")):
+                o = mod.Polychromator(perm, cur["mbpw"], cur["name"])
+                got = tuple(snapshot(o, enc, arrays=False)[k] for k in ("min_wavelength", "max_wavelength", "spectral_bins"))
+                if got != want:
+                    fails.append("settings depend on the order of the filters: %s list gives %r, original %r" % (label, got, want))
+                    break
     msg = check_pipelines(inst, a)
     if msg:
         fails.append(msg)
@@ -940,8 +1082,13 @@ def exact_pl_integral(xs, ys, a, b):
     return tot
 
 
-def cal_case(rng, mod, Spectrum, quick):
-    style = rng.choice(["aligned", "fine", "coarse", "random", "random", "tight", "narrow-range"])
+CAL_EDGE_STYLES = ["dyadic", "full", "survey", "hires", "two", "intratio", "integer"]
+
+
+def cal_layout(rng, quick, s):
+    """pixel layout, spectrum range and binning of one calibration; all wavelengths scaled by s (a power of two)"""
+    style = rng.choice(["aligned", "fine", "coarse", "random", "random", "tight", "narrow-range", "guard-ulp", "nested"])
+    STATS["calibrate:" + style] += 1
     if style == "aligned":
         # pixel edges on bin edges (dyadic)
         a = float(rng.randint(300, 800))
@@ -954,7 +1101,13 @@ def cal_case(rng, mod, Spectrum, quick):
         bins = nb
     else:
         n = rng.choice([1, 1, 2, 3])
-        w2p = [gen_edges(rng)[0] for _ in range(n)]
+        w2p = [gen_edges(rng, rng.choice(CAL_EDGE_STYLES))[0] for _ in range(n)]
+        if style == "nested":
+            inner = w2p[0]
+            k = rng.randint(2, 6)
+            lo_, hi_ = inner[0] - dyadic(rng, 0.5, 10, 4), inner[-1] + dyadic(rng, 0.5, 10, 4)
+            broad = [lo_ + (hi_ - lo_) * t / k for t in range(k + 1)]
+            w2p = [inner, broad] if rng.random() < 0.5 else [broad, inner]
         lo, hi = min(w[0] for w in w2p), max(w[-1] for w in w2p)
         narrow = min(y - x for w in w2p for x, y in zip(w, w[1:]))
         if style == "tight":
@@ -964,51 +1117,113 @@ def cal_case(rng, mod, Spectrum, quick):
                 smin, smax = lo + (hi - lo) * 2.0 ** -10, hi + 1.0
             else:
                 smin, smax = lo - 1.0, hi - (hi - lo) * 2.0 ** -10
+        elif style == "guard-ulp":
+            # exactly at, one ulp inside and one ulp outside the two comparisons of the guard (:153)
+            smin, smax = lo - 1.0, hi + 1.0
+            k = rng.randrange(6)
+            if k == 0:
+                smin = ulp_up(lo)          # rejected
+            elif k == 1:
+                smin = ulp_dn(lo)
+            elif k == 2:
+                smax = ulp_dn(hi)          # rejected
+            elif k == 3:
+                smax = ulp_up(hi)
+            elif k == 4:
+                smin = lo
+            else:
+                smax = hi
         else:
             smin, smax = lo - rng.uniform(0, 5), hi + rng.uniform(0, 5)
         if style == "coarse":
-            bins = rng.randint(1, 6)
+            bins = rng.randint(1, 6)             # N = 1, 2: a spectrum of one or two bins
         elif style == "fine":
-            bins = min(max(int((smax - smin) / narrow * rng.randint(2, 4)), 4), 60 if quick else 400)
+            bins = min(max(int((smax - smin) / narrow * rng.randint(2, 4)), 4), 60 if quick else 300)
         else:
-            bins = rng.randint(2, 50 if quick else 300)
-    mbpp = rng.randint(1, 5)
-    sp = Spectrum(smin, smax, bins)
-    kind = rng.choice(["uniform", "spiky", "ramp", "zeros-and-spike"])
-    if kind == "uniform":
-        sp.samples[:] = [rng.uniform(0, 10) for _ in range(bins)]
-    elif kind == "spiky":
-        sp.samples[:] = [rng.choice([0.0, 0.0, rng.uniform(0, 100)]) for _ in range(bins)]
-    elif kind == "ramp":
-        sp.samples[:] = [float(i) / 4 for i in range(bins)]
-    else:
-        sp.samples[:] = 0.0
-        sp.samples[rng.randrange(bins)] = dyadic(rng, 1, 50, 3)
-    inst = mod.Spectrometer(w2p, mbpp, "cal")
-    # a history before calibrating: the range used by the guard must be the current one
-    if rng.random() < 0.5:
-        inst.min_wavelength
-        other, _ = gen_w2p(rng, allow_bad=False)
-        inst.wavelength_to_pixel = other
-        inst.wavelength_to_pixel = w2p
-    st, val = call(lambda: inst.calibrate(sp))
-    xs = [float(x) for x in sp.wavelengths]
-    ys = [float(y) for y in sp.samples]
-    if st == "ok":
-        impl = "(Ok %s)" % qarrs(val)
-    else:
-        impl = "(Err %s)" % val
-    p_txt = "{| spp_mbpp := %s; spp_w2p := %s; spp_name := %s |}" % (qlit(mbpp), qarrs(w2p), cstr("cal"))
-    case = "check_cal %s %s %s %s %s %s" % (p_txt, qlit(smin), qlit(smax), qlist(xs), qlist(ys), impl)
-    return {"case": case, "kind": "calibrate", "style": style, "samples": kind, "w2p": w2p, "smin": smin, "smax": smax,
-            "bins": bins, "ys": ys, "xs": xs, "st": st, "val": [list(map(float, v)) for v in val] if st == "ok" else val,
-            "sp": sp, "inst": inst}
+            bins = rng.choice([rng.randint(2, 50 if quick else 200), 9, 10, 11] + ([] if quick else [99, 100, 101]))
+    if s != 1.0:
+        w2p = [[x * s for x in w] for w in w2p]
+        smin, smax = smin * s, smax * s
+    return style, w2p, smin, smax, bins
+
+
+def cal_cases(rng, mod, Spectrum, quick):
+    """ONE live Spectrometer calibrating up to three spectra; its layout / min_bins_per_pixel are changed through the
+    setters in between, and the Spectrum object is re-used with new samples where the binning allows it.  Every
+    calibration is one case for the (stateless) model fed the configuration current at that step."""
+    out = []
+    s = gen_scale(rng, 0.25)
+    inst, sp, side = None, None, []
+    nsteps = rng.choice([1, 1, 2, 3])
+    STATS["calibrate:steps on one instrument=%d" % nsteps] += 1
+    for step in range(nsteps):
+        style, w2p, smin, smax, bins = cal_layout(rng, quick, s)
+        mbpp = rng.randint(1, 5)
+        if inst is None:
+            inst = mod.Spectrometer(form_w2p(rng, w2p), mbpp, "cal")
+            if rng.random() < 0.5:
+                inst.min_wavelength                       # cache filled before the layout is replaced and restored
+                other, _ = gen_w2p(rng, allow_bad=False)
+                inst.wavelength_to_pixel = other
+                inst.wavelength_to_pixel = w2p
+        else:
+            if rng.random() < 0.7:
+                inst.wavelength_to_pixel = form_w2p(rng, w2p)
+            else:                                          # keep the layout, re-use it for another spectrum
+                w2p = prev_w2p
+                lo, hi = min(w[0] for w in w2p), max(w[-1] for w in w2p)
+                smin, smax = lo - abs(lo) * rng.choice([0.0, 0.01]), hi + abs(hi) * rng.choice([0.0, 0.01])
+            inst.min_bins_per_pixel = mbpp
+        prev_w2p = w2p
+        if sp is not None and rng.random() < 0.7 and sp.min_wavelength <= min(w[0] for w in w2p) and sp.max_wavelength >= max(w[-1] for w in w2p):
+            smin, smax, bins = sp.min_wavelength, sp.max_wavelength, sp.bins      # the same Spectrum object, new samples
+            STATS["calibrate:Spectrum object re-used"] += 1
+        else:
+            sp = Spectrum(smin, smax, bins)
+        kind = rng.choice(["uniform", "spiky", "ramp", "zeros-and-spike", "all-zero", "constant"])
+        if kind == "uniform":
+            sp.samples[:] = [rng.uniform(0, 10) for _ in range(bins)]
+        elif kind == "spiky":
+            sp.samples[:] = [rng.choice([0.0, 0.0, rng.uniform(0, 100)]) for _ in range(bins)]
+        elif kind == "ramp":
+            sp.samples[:] = [float(i) / 4 for i in range(bins)]
+        elif kind == "all-zero":
+            sp.samples[:] = 0.0
+        elif kind == "constant":
+            sp.samples[:] = dyadic(rng, 1, 50, 3)
+        else:
+            sp.samples[:] = 0.0
+            sp.samples[rng.randrange(bins)] = dyadic(rng, 1, 50, 3)
+        if rng.random() < 0.1:
+            # second-order call site: the isinstance guard (:151)
+            st0, v0 = call(lambda: inst.calibrate(rng.choice([np.array(sp.samples), list(sp.samples), None, 1.0])))
+            STATS["calibrate:non-Spectrum argument"] += 1
+            if (st0, v0) != ("err", "ErrType"):
+                side.append("calibrate(<not a Spectrum>) gave %r instead of TypeError" % ((st0, v0),))
+        st, val = call(lambda: inst.calibrate(sp))
+        imin, imax = float(inst.min_wavelength), float(inst.max_wavelength)
+        xs = [float(x) for x in sp.wavelengths]
+        ys = [float(y) for y in sp.samples]
+        if st == "ok":
+            impl = "(Ok %s)" % qarrs(val)
+        else:
+            impl = "(Err %s)" % val
+        p_txt = "{| spp_mbpp := %s; spp_w2p := %s; spp_name := %s |}" % (qlit(mbpp), qarrs(w2p), cstr("cal"))
+        case = "check_cal %s %s %s %s %s %s" % (p_txt, qlit(float(smin)), qlit(float(smax)), qlist(xs), qlist(ys), impl)
+        integ = None
+        if st == "ok":      # the implementation's own integrals, taken now (the Spectrum object may be re-used later)
+            integ = [[float(sp.integrate(w[i], w[i + 1])) for i in range(len(w) - 1)] for w in w2p]
+        out.append({"case": case, "kind": "calibrate", "style": style, "samples": kind, "w2p": w2p, "smin": float(smin),
+                    "smax": float(smax), "bins": bins, "ys": ys, "xs": xs, "st": st, "step": step, "scale": s,
+                    "val": [list(map(float, v)) for v in val] if st == "ok" else val, "integ": integ,
+                    "imin": imin, "imax": imax, "side": side if step == nsteps - 1 else []})
+    return out
 
 
 def cal_search(h):
     """value*width == the spectrum's integral over the pixel; sum over adjacent pixels == integral over their union"""
     fails = []
-    covers = h["smin"] <= h["inst"].min_wavelength and h["smax"] >= h["inst"].max_wavelength
+    covers = h["smin"] <= h["imin"] and h["smax"] >= h["imax"]
     if h["st"] != "ok":
         if covers:
             fails.append("calibrate raised %s for a spectrum whose range covers the instrument" % h["val"])
@@ -1016,11 +1231,10 @@ def cal_search(h):
     if not covers:
         # outside the property's quantifier (spectra covering the instrument); the guard itself is tied by the correspondence
         return fails
-    sp = h["sp"]
     scale = max(h["ys"]) if max(h["ys"]) > 0 else 1.0
     if len(h["val"]) != len(h["w2p"]):
         return ["calibrate returned %d arrays for %d accommodated spectra" % (len(h["val"]), len(h["w2p"]))]
-    for w, vals in zip(h["w2p"], h["val"]):
+    for w, vals, ints in zip(h["w2p"], h["val"], h["integ"]):
         if len(vals) != len(w) - 1:
             fails.append("calibrate returned %d values for %d pixels" % (len(vals), len(w) - 1))
             break
@@ -1028,7 +1242,7 @@ def cal_search(h):
         for i, v in enumerate(vals):
             width = Fraction(w[i + 1]) - Fraction(w[i])
             have = Fraction(v) * width
-            want_impl = Fraction(float(sp.integrate(w[i], w[i + 1])))
+            want_impl = Fraction(ints[i])
             want_exact = exact_pl_integral(h["xs"], h["ys"], w[i], w[i + 1])
             tol = Fraction(1e-10) * Fraction(scale) * width
             if abs(have - want_impl) > tol or abs(have - want_exact) > tol:
@@ -1049,7 +1263,9 @@ def jsonable(o):
         return {str(k): jsonable(v) for k, v in o.items()}
     if isinstance(o, (list, tuple)):
         return [jsonable(v) for v in o]
-    if isinstance(o, (np.floating, np.integer)):
+    if isinstance(o, np.ndarray):
+        return jsonable(o.tolist())
+    if isinstance(o, (np.floating, np.integer, np.bool_)):
         return o.item()
     if isinstance(o, (str, int, float, bool)) or o is None:
         return o
@@ -1093,6 +1309,8 @@ def run(ctx):
     n_sp, n_ct, n_pc, n_cal, n_flt = (110, 70, 110, 70, 60) if quick else (1800, 1200, 1800, 900, 500)
 
     hist = []
+    STATS.clear()
+    QUICK[0] = quick
     # corpus of past disagreements first
     corpus = sorted(glob.glob(os.path.join(VERIF, "corpus", "C16", "*.json")))
     for _ in range(n_sp):
@@ -1101,8 +1319,8 @@ def run(ctx):
         hist.append(ct_history(rng, mod, enc0, quick))
     for _ in range(n_pc):
         hist.append(pc_history(rng, mod, quick))
-    for _ in range(n_cal):
-        hist.append(cal_case(rng, mod, Spectrum, quick))
+    while sum(1 for h in hist if h["kind"] == "calibrate") < n_cal:
+        hist += cal_cases(rng, mod, Spectrum, quick)
     for _ in range(n_flt):
         hist.append(filter_case(rng, mod))
     hist.sort(key=lambda h: h["kind"] != "calibrate")     # the expensive files are compiled first (stable sort)
@@ -1153,7 +1371,7 @@ def run(ctx):
     n_search = n_degenerate = 0
     for i, h in enumerate(hist):
         if h["kind"] in ("spectrometer", "czerny-turner"):
-            if len(h["cur"]["w2p"] if h["kind"] == "spectrometer" else h["cur"]["acc"]) == 0:
+            if len(h["cur"]["arrs"] if h["kind"] == "spectrometer" else h["cur"]["acc"]) == 0:
                 n_degenerate += 1
             fl = sp_search(h, mod, enc0)
         elif h["kind"] == "polychromator":
@@ -1174,7 +1392,7 @@ def run(ctx):
     def replay_of(h):
         r = {k: h[k] for k in ("kind", "init", "log", "cur") if k in h}
         if h["kind"] == "calibrate":
-            r = {k: h[k] for k in ("kind", "style", "samples", "w2p", "smin", "smax", "bins", "ys", "st", "val")}
+            r = {k: h[k] for k in ("kind", "style", "samples", "w2p", "smin", "smax", "bins", "ys", "st", "val", "step", "scale")}
         if h["kind"] == "filter":
             r = {"kind": "filter", "spec": h["spec"]}
         if "cur" in r:
@@ -1202,6 +1420,16 @@ def run(ctx):
                           "the executable property found no failing input" % (h["kind"], code),
                           dict(replay_of(h), first_disagreeing_call=code), found=False)
 
+    # guards of the anchored code that lie outside the property's quantifier and have no model operation
+    # (TypeError of calibrate for a non-Spectrum, AttributeError of the read-only Czerny-Turner pixel arrays)
+    side = [(i, m) for i, h in enumerate(hist) for m in h.get("side", [])]
+    ctx.obligation("expected rejections outside the model (%d calls)" % (STATS["calibrate:non-Spectrum argument"]
+                   + STATS["op:assignment to a read-only attribute"]), "correspondence", not side, str(side[:3]))
+    if side and not search_fails:
+        i, m = side[0]
+        ctx.violation("c16-side:%s" % hist[i]["kind"], m + "; the executable property found no failing input",
+                      replay_of(hist[i]), found=False)
+
     # ---- evidence -------------------------------------------------------------------------------
     kinds = {}
     for h in hist:
@@ -1228,7 +1456,8 @@ def run(ctx):
                          "calibrate_alignment_styles": cal_styles,
                          "calibrate_error_cases(range too narrow)": sum(1 for h in cal if h["st"] != "ok"),
                          "filter_error_cases": sum(1 for h in hist if h["kind"] == "filter" and not h["ok"]),
-                         "search_cases": n_search, "corpus_files": len(corpus)},
+                         "search_cases": n_search, "corpus_files": len(corpus),
+                         "input_classes": dict(sorted(STATS.items()))},
         "tolerance": {"ranges, bin counts, pixel edge/centre arrays, filter min/max/window, kwargs, classes, exception kinds": "exact",
                       "calibrate values": "relative 2^-40 + absolute 2^-50 against the exact integral of the interpolant",
                       "search: bin width bound on doubles": "relative slack 2^-40 (theorem: ((1+u)/(1-u))^2, u=2^-53)",
